@@ -21,5 +21,6 @@ CONSTANTS
   BugPadCredit = FALSE
   EncodeAtEnqueue = TRUE
   BugZeroCostHeld = FALSE
+  SplitOnlyAtEnqueue = FALSE
 INVARIANTS WithinGrant WithinMaxFrame CreditReturned NoEligibleQueued LedgerAgrees PrefixFidelity HpackInOrder
 CHECK_DEADLOCK FALSE
